@@ -23,8 +23,8 @@ ANCHOR_FILES = ["src/ropt/transforms/variable_scaler.py", "src/ropt/config/enopt
 RULE = ("case = one user-domain configuration + point + transform set; non-trivial if at least one scale differs from 1 or an offset from 0 and both runs produced results; "
         "distinct key = case index; monitor_counters: fields and evaluator rows compared")
 ASSUMPTIONS = ["scales are positive", "same seed and sampler give the same samples in both runs"]
-REQUIRED = {"quick": {"pairs": 600, "with_variables_declared_integer": 100, "with_variable_scales_given_as_integers": 60, "with_function_scales_of_another_order_of_magnitude.and_stddev_estimator": 20, "evaluator_rows_compared": 4000, "result_fields_compared": 6356, "constraint_info_fields_compared": 3000, "relative_perturbation_pairs": 100, "initial_values_outside_bounds_cases": 120, "transforms_object_used_for_another_configuration_before": 150, "feasibility_points": 4800, "roundtrips": 600, "__nontrivial__": 600},
-            "thorough": {"pairs": 12000, "with_variables_declared_integer": 2400, "with_variable_scales_given_as_integers": 1200, "with_function_scales_of_another_order_of_magnitude.and_stddev_estimator": 400, "evaluator_rows_compared": 80000, "result_fields_compared": 127326, "constraint_info_fields_compared": 60000, "relative_perturbation_pairs": 2000, "initial_values_outside_bounds_cases": 2500, "transforms_object_used_for_another_configuration_before": 3000, "feasibility_points": 96000, "roundtrips": 12000, "__nontrivial__": 12000}}
+REQUIRED = {"quick": {"pairs": 600, "with_variables_declared_integer": 100, "with_variable_scales_given_as_integers": 45, "with_a_variable_scale_of_1e-8_or_less": 50, "with_function_scales_of_another_order_of_magnitude.and_stddev_estimator": 20, "evaluator_rows_compared": 4000, "result_fields_compared": 6356, "constraint_info_fields_compared": 3000, "relative_perturbation_pairs": 100, "initial_values_outside_bounds_cases": 120, "transforms_object_used_for_another_configuration_before": 150, "feasibility_points": 4800, "roundtrips": 600, "__nontrivial__": 600},
+            "thorough": {"pairs": 12000, "with_variables_declared_integer": 2400, "with_variable_scales_given_as_integers": 1000, "with_a_variable_scale_of_1e-8_or_less": 1000, "with_function_scales_of_another_order_of_magnitude.and_stddev_estimator": 400, "evaluator_rows_compared": 80000, "result_fields_compared": 127326, "constraint_info_fields_compared": 60000, "relative_perturbation_pairs": 2000, "initial_values_outside_bounds_cases": 2500, "transforms_object_used_for_another_configuration_before": 3000, "feasibility_points": 96000, "roundtrips": 12000, "__nontrivial__": 12000}}
 N = {"quick": 1000, "thorough": 20000}
 RT = 1e-9
 
@@ -122,7 +122,12 @@ def run_case(case, obs):
         obs.count("with_function_scales_of_another_order_of_magnitude")
         if spec.get("estimators"):
             obs.count("with_function_scales_of_another_order_of_magnitude.and_stddev_estimator")
-    if rng.random() < 0.12:
+    if tspec["vscale"] is not None and rng.random() < 0.12:
+        # a variable kept in small units (a scale of 1e-9 or 1e-12 is a scale)
+        tspec["vscale"] = list(tspec["vscale"])
+        tspec["vscale"][int(rng.integers(V))] = float(rng.choice([1e-9, 1e-12, 2e-8]))
+        obs.count("with_a_variable_scale_of_1e-8_or_less")
+    elif rng.random() < 0.12:
         # scales written as whole numbers (an integer array): numbers all the same
         tspec["vscale"] = [int(t) for t in rng.integers(1, 12, size=V)]
         tspec["vscale_integer_array"] = True
